@@ -27,6 +27,11 @@ var c06Programs = []struct{ name, src string }{
 	{"callback-loop-in-each", `l := [1, 2, 3]; for { l.each(func(v) { tick() }) }`},
 	{"blocked-send", `ch := chan(0); ch <- 1`},
 	{"blocked-receive", `ch := chan(1); <-ch`},
+	{"blocked-send-on-full-buffer", `ch := chan(1); ch <- 1; ch <- 2`},
+	{"blocked-send-on-full-buffer-2", `ch := chan(2); ch <- 1; ch <- 2; ch <- 3`},
+	{"deep-recursion-without-loops", `func fib(k) { if k < 2 { return k }; return fib(k - 1) + fib(k - 2) }; fib(60)`},
+	{"callback-recursion", `func walk(k) { return [k].map(func(v) { return walk(v + 1) }) }; walk(0)`},
+	{"goroutine-blocked-main-waits", `ch := chan(0); go func() { for { tick() } }(); <-ch`},
 	{"range-over-open-channel", `ch := chan(1); ch <- 1; for _, v := range ch { tick() }`},
 	{"thread-wait", `ch := chan(0); t := spawn(func() { <-ch }); t.wait()`},
 	{"sleep", `sleep(3600)`},
@@ -38,7 +43,7 @@ type c06Run struct {
 	machine *VirtualMachine
 }
 
-func c06Eval(ctx context.Context, src string, ticks *int) (error, bool) {
+func c06Eval(ctx context.Context, label string, src string, ticks *int) (error, bool) {
 	prog, err := parser.Parse(context.Background(), src)
 	if err != nil {
 		return err, false
@@ -61,18 +66,13 @@ func c06Eval(ctx context.Context, src string, ticks *int) (error, bool) {
 		return err, false
 	}
 	machine := New(code, WithGlobals(globals), WithConcurrency())
-	// natively a watchdog turns a hang into a failure instead of a stuck replay
-	done := make(chan error, 1)
-	if verifrt.Symbolic() {
-		return machine.Run(ctx), true
-	}
-	go func() { done <- machine.Run(ctx) }()
-	select {
-	case err := <-done:
-		return err, true
-	case <-time.After(3 * time.Second):
-		return nil, true
-	}
+	// the call must return: natively a watchdog turns a hang into a failed
+	// assertion, under the engine running out of the step budget does
+	var err2 error
+	verifrt.RunWithDeadline(label+":returns-promptly", 600000, 3*time.Second, func() {
+		err2 = machine.Run(ctx)
+	})
+	return err2, true
 }
 
 // HarnessC06CancellationStopsEvaluation: for every program shape and every
@@ -90,7 +90,7 @@ func HarnessC06CancellationStopsEvaluation() {
 	verifrt.SchedBounds(1, 2)
 	verifrt.AtYield(k+1, cancel)
 	ticks := 0
-	err, ran := c06Eval(ctx, p.src, &ticks)
+	err, ran := c06Eval(ctx, p.name, p.src, &ticks)
 	verifrt.Assert(ran, p.name+":compiles")
 	if !ran {
 		return
@@ -115,7 +115,13 @@ func HarnessC06NothingRunsAfterReturn() {
 	ticks := 0
 	src := `go func() { for { tick() } }()
 for { }`
-	err, ran := c06Eval(ctx, src, &ticks)
+	if verifrt.Bool() {
+		// a goroutine started by a goroutine (three tasks: only fairness-driven switches)
+		src = `go func() { go func() { for { tick() } }(); for { tick() } }()
+for { }`
+		verifrt.SchedBounds(0, 2)
+	}
+	err, ran := c06Eval(ctx, "spawned", src, &ticks)
 	verifrt.Assert(ran, "compiles")
 	if !ran {
 		return
